@@ -176,6 +176,9 @@ func (r *renderer) contentType(e *Entity) string {
 	if len(refsOf(e, "g.cmp")) > 0 {
 		return "i1"
 	}
+	if len(refsOf(e, "ty.const")) > 0 {
+		return "i8*"
+	}
 	if directBA(e) {
 		return "i8*"
 	}
@@ -272,7 +275,9 @@ func Render(src []Entity) string {
 		case "global":
 			ct := r.contentType(e)
 			var init string
-			if directBA(e) {
+			if tc := refsOf(e, "ty.const"); len(tc) > 0 {
+				init = fmt.Sprintf("bitcast (%s* null to i8*)", tyName(tc[0].To))
+			} else if directBA(e) {
 				x := refsOf(e, "l.baddr")[0]
 				init = fmt.Sprintf("blockaddress(%s, %%%s)", gname(x.To), x.Aux)
 			} else if c := refsOf(e, "g.cmp"); len(c) > 0 {
